@@ -252,7 +252,7 @@ def p_makezip_valid(path, ctx):
     raise ValueError(f"incomplete zip: {names}")
 
 
-PAYLOAD = [bytes([65 + i]) * 5000 for i in range(4)]
+PAYLOAD = [b"A" * 16384, b"B" * 5000, b"C" * 100, b"D" * 7]      # the last chunks are smaller than any file buffer: data is still buffered at close time
 
 
 def p_download_setup(d):
